@@ -80,21 +80,21 @@ func run(c *vf.Ctx) {
 	g.Timeout = 20 * time.Minute
 	for _, fname := range []string{"sha1", "sha256"} {
 		idLen := 40
-		nC, nT := c.N(450, 9000), c.N(160, 3000)
+		nC, nT := c.N(450, 5000), c.N(160, 1500)
 		if fname == "sha256" {
 			idLen = 64
-			nC, nT = c.N(120, 2500), c.N(50, 800)
+			nC, nT = c.N(120, 1200), c.N(50, 400)
 		}
 		if !rawSide(c, g, fname, idLen, nC, nT) {
 			return
 		}
 	}
 	c.Extra("git_invocations", gitx.Calls.Load())
-	c.Floor("raw commits parsed by git and decoded by go-git", c.Counter("commits_compared"), c.N(900, 18000))
-	c.Floor("raw tags parsed by git and decoded by go-git", c.Counter("tags_compared"), c.N(300, 5000))
-	c.Floor("field comparisons against git's report", c.Counter("field_comparisons"), c.N(8000, 150000))
-	c.Floor("byte-identity checks", c.Counter("reencode_checks"), c.N(1200, 23000))
-	c.Floor("struct round trips", c.Counter("struct_roundtrips"), c.N(500, 10000))
+	c.Floor("raw commits parsed by git and decoded by go-git", c.Counter("commits_compared"), c.N(900, 10000))
+	c.Floor("raw tags parsed by git and decoded by go-git", c.Counter("tags_compared"), c.N(300, 2500))
+	c.Floor("field comparisons against git's report", c.Counter("field_comparisons"), c.N(8000, 80000))
+	c.Floor("byte-identity checks", c.Counter("reencode_checks"), c.N(1200, 12000))
+	c.Floor("struct round trips", c.Counter("struct_roundtrips"), c.N(500, 5000))
 	c.Floor("distinct perturbations exercised", c.SeenCount("perturbations"), 120)
 	c.Assume("domain of clauses A and B = objects that git itself parses (git log --no-walk / for-each-ref succeed); objects git calls bogus are not judged")
 	c.Assume("git's report is taken as lossless only where git is self-consistent: duplicated author/committer/tagger headers (git log shows the last, commit parsing uses the first), identities git's split_ident_line rejects (git prints nothing), dates git clamps to '0 +0000', messages of objects without a blank separator line, and tagger identities not in canonical form (for-each-ref and log split them differently) are not compared")
@@ -394,6 +394,15 @@ func findingKey(k *kase, cl string) string {
 	if m := regexp.MustCompile(`^field-(author|committer)-(name|email|time|zone)$`).FindStringSubmatch(cl); m != nil && k.origin == "generated" {
 		if k.zeroSig[m[1]] && outOfSlot(k.obj, m[1]) {
 			return "field-" + m[1] + ":header-outside-canonical-position-ignored"
+		}
+	}
+	if cl == "field-extra-headers" && k.obj != nil && k.obj.noFinalNL && k.origin == "generated" {
+		if last := k.obj.h[len(k.obj.h)-1]; len(last.cont) == 0 && !last.nosp {
+			switch last.key {
+			case "tree", "parent", "author", "committer", "encoding", "gpgsig", "gpgsig-sha256":
+			default:
+				return "field-extra-headers:last-extra-header-without-final-lf-dropped"
+			}
 		}
 	}
 	switch {
